@@ -8,7 +8,7 @@
 // residue condition), generator outside 2…7, g_a ∈ {0, 1, p−1, p, p+1, 2^1984, p−2^1984, …} and weak g_a = 3^a with a known small a, a weak g_b drawn by the client itself, wrong /
 // altered new_nonce_hash1, dh_gen_retry / dh_gen_fail / server_DH_params_fail, wrong constructors,
 // junk, bad envelopes, replayed messages of an earlier run, own RSA key (other fingerprint, or
-// claiming the trusted one), empty / foreign fingerprint lists, pq above 2^63; ciphertext surgery a keyless
+// claiming the trusted one), empty / foreign fingerprint lists, pq above 2^63, pq = 0 / 1 / prime; ciphertext surgery a keyless
 // man in the middle can do on the encrypted answer: whole blocks appended (random / duplicated),
 // prepended, inserted, swapped, dropped, single bytes appended or cut; and format variations by the
 // key holder: trailing bytes / a second TL object inside the hashed answer or after each message,
@@ -151,6 +151,10 @@ func impostor(ctx context.Context, conn transport.Conn, a attack, e *env, r *hc.
 		pq, _ = g.PQ()
 	case is("pq-big"):
 		pq = new(big.Int).Add(new(big.Int).Lsh(big.NewInt(1), 63), big.NewInt(int64(1+a.arg)))
+	case is("pq-degenerate"):
+		// not a product of two primes: 0, 1, or a prime (DecomposePQ cannot factor these)
+		pq = []*big.Int{big.NewInt(0), big.NewInt(1), big.NewInt(2), big.NewInt(3), big.NewInt(1000003),
+			big.NewInt(2147483647), big.NewInt(4611686018427388039), big.NewInt(9223372036854775783)}[a.arg%8]
 	}
 	fps := []int64{crypto.RSAFingerprint(&myKey.PublicKey)}
 	switch {
@@ -453,10 +457,15 @@ func impostor(ctx context.Context, conn transport.Conn, a attack, e *env, r *hc.
 	_ = err
 }
 
+// hangLimit: how long a single exchange may take before it is declared hung (the exchange
+// timeout is 20 s per call, the context 60 s; an honest exchange takes well under a second).
+const hangLimit = 90 * time.Second
+
 type result struct {
 	cres       exchange.ClientExchangeResult
 	cerr       error
 	panicked   any
+	hung       bool // Run had not returned when the harness stopped waiting
 	sent, recv [][]byte
 	b          *big.Int
 	sid        uint64
@@ -496,27 +505,40 @@ func runAttack(a attack, e *env) result {
 	for _, k := range keys {
 		out.keys = append(out.keys, uint64(k.Fingerprint()))
 	}
-	func() {
+	type ret struct {
+		res exchange.ClientExchangeResult
+		err error
+		p   any
+	}
+	done := make(chan ret, 1)
+	go func() {
+		var rt ret
 		defer func() {
 			if p := recover(); p != nil {
-				out.panicked = p
+				rt.p = p
 			}
+			done <- rt
 		}()
 		ex := exchange.NewExchanger(tap, a.dc).WithRand(crand).WithTimeout(20 * time.Second)
 		if a.temp {
 			ex = ex.WithTempMode(3600)
 		}
-		out.cres, out.cerr = ex.Client(keys).Run(ctx)
+		rt.res, rt.err = ex.Client(keys).Run(ctx)
 	}()
+	select {
+	case rt := <-done:
+		out.cres, out.cerr, out.panicked = rt.res, rt.err, rt.p
+	case <-time.After(hangLimit):
+		// Run neither returned nor failed (it does not wait for the peer: the context has a
+		// deadline and every transport call a timeout) — it is computing for ever
+		out.hung = true
+	}
 	client.Close()
 	wg.Wait()
 	out.sent, out.recv = tap.Frames()
 	out.b = crand.Last256()
-	for i := len(crand.Reads) - 1; i >= 0; i-- {
-		if len(crand.Reads[i]) == 8 {
-			out.sid = binary.LittleEndian.Uint64(crand.Reads[i])
-			break
-		}
+	if b := crand.LastN(8); b != nil {
+		out.sid = binary.LittleEndian.Uint64(b)
 	}
 	return out
 }
@@ -533,7 +555,7 @@ func gen(r *hc.RNG) attack {
 		w    int
 	}
 	fatal := []k{
-		{"res-nonce", bit128, 4}, {"fps-none", 0, 2}, {"fps-foreign", 0, 2}, {"pq-big", r.Intn(1000), 2},
+		{"res-nonce", bit128, 4}, {"fps-none", 0, 2}, {"fps-foreign", 0, 2}, {"pq-big", r.Intn(1000), 2}, {"pq-degenerate", r.Intn(8), 4},
 		{"res-badtype", 0, 1}, {"res-fromserver-type", 0, 1}, {"res-enckey", 0, 1}, {"res-trunc", 0, 1}, {"res-shortlen", 0, 1},
 		{"res-wrongctor", 0, 1}, {"res-replay", 0, 2},
 		{"dh-nonce", bit128, 4}, {"dh-server-nonce", bit128, 4}, {"inner-nonce", bit128, 4}, {"inner-server-nonce", bit128, 4},
@@ -651,6 +673,9 @@ func run(c *hc.Ctx) error {
 		case o.panicked != nil:
 			c.Fail("client-panic", in, fmt.Sprint(o.panicked))
 			continue
+		case o.hung:
+			c.Fail("client-hang", in, fmt.Sprintf("ClientExchange.Run neither returned nor failed within %v", hangLimit))
+			continue
 		case a.fatal && o.cerr == nil:
 			key := "tampered-exchange-accepted"
 			if strings.HasPrefix(a.kind, "ga") || strings.HasPrefix(a.kind, "g-") || strings.HasPrefix(a.kind, "prime-") || a.kind == "client-weak-b" {
@@ -694,11 +719,17 @@ func run(c *hc.Ctx) error {
 		if o.b != nil {
 			b = o.b.String()
 		}
-		primes := "-"
+		var cands []*big.Int
 		if dec.Inner != nil {
 			p := new(big.Int).SetBytes(dec.Inner.DhPrime)
-			primes = c09x.Primes(p, c09x.Half(p))
+			cands = append(cands, p, c09x.Half(p))
 		}
+		if len(delivered) > 0 {
+			if fr := strings.Fields(delivered[0]); len(fr) == 5 && fr[0] == "resPQ" {
+				cands = append(cands, c09x.BigOf(fr[3])) // pq: the client tests it for primality
+			}
+		}
+		primes := c09x.Primes(cands...)
 		line := fmt.Sprintf("client keys=%s cdc=%d temp=%d exp=%d nonce=%s newnonce=%s b=%s sid=%d primes=%s factor=%s",
 			u64s(o.keys), a.dc, map[bool]int{false: 0, true: 1}[a.temp], map[bool]int{false: 0, true: 3600}[a.temp], f0[1], newNonce, b, o.sid, primes, factor)
 		for _, m := range delivered {
@@ -731,7 +762,7 @@ func run(c *hc.Ctx) error {
 		}
 	}
 	c.Res.Rule = "each case = one exchange of the real client against a scripted impostor with one deviation (kinds and their frequencies are in the distribution; bit positions, table indices, seeds from the PRNG); 12% controls and format variations by an authenticated server with safe parameters (accepted or not as the model decides), 5% generators 2…7 against the residue condition, 7% impostors with their own RSA key, the rest attacks (incl. extension, truncation, duplication, swapping of ciphertext blocks); non-trivial = the deviation is an attack (client must fail); distinct = distinct case line"
-	c.PartialNote("the adversary library is finite: deviations are applied one at a time (plus `claim` = no private key combined with any of them); pq = 0, 1 or prime is not offered (crypto.DecomposePQ divides by zero / does not terminate on those — outside this property, reported in notes/C10.md)")
+	c.PartialNote("the adversary library is finite: deviations are applied one at a time (plus `claim` = no private key combined with any of them); pq = 0, 1 and prime pq are offered (`pq-degenerate`): before the fix in exchange/client_flow.go they crashed or hung the client (crypto.DecomposePQ divides by zero / never returns)")
 	c.PartialNote("that a peer without the private key cannot produce an answer decrypting under the temporary key is a cryptographic assumption (RSA_PAD, SHA-1, AES-IGE); the impostors here guess, flip, truncate, replay or re-key")
 	return nil
 }
